@@ -21,6 +21,7 @@ EXPLANATION = (
     "with struct_names(true), and par_experiment writes it before the parallel runs start. (R7) State::holding puts the held LogConfig back where it came from; (R8) Logger::init initialises every trigger once, in rule order, stopping at the first failure; (R9) to_json / to_cbor serialise the compressed form of the whole log into a writer on the file at the caller's path, Ok iff both steps succeed. NOT decided: the JSON / "
     "CBOR / RON codecs themselves (third-party), equality of logged values with the state at that moment beyond the "
     "dataflow shown.")
+EXPLANATION += " " + '(R1/R10 revised) LogConfig and Log are cells of the typed store and the real State::holding is followed: one step per firing execution, and the LogConfig stays in the scope (own / enclosing / two up) it lives in.'
 ASSUMPTIONS = ["serde_json, ciborium and ron encode what Serialize emits", "type_name::<T>() is injective on the logged state types"]
 
 LOG = "mahf::logging::"
